@@ -205,3 +205,216 @@ pub fn run(toks: Vec<Tok>) -> Vec<Tok> {
         vec![vec![status, warn, intact], tok(&rec)]
     })
 }
+
+/// UDP through the SOCKS5 forwarder end to end: `CONNECT _udp2` over HTTP/1.1-TLS to the real endpoint, which associates with a
+/// scripted SOCKS5 server (control connection + relay socket on loopback).
+/// in : [extended_auth (0|1), datagrams, payload length, reply code of the server to UDP ASSOCIATE]
+/// out: [996] | [status, replies with the right payload, replies labelled source = the destination and destination = the client's source,
+///       control connections the server saw, datagrams the relay received, their headers are all RSV RSV FRAG ATYP DST.ADDR DST.PORT (0|1),
+///       their payloads intact] then the bytes of the first control connection
+pub fn udp(toks: Vec<Tok>) -> Vec<Tok> {
+    let f = toks[0].clone();
+    let rt = tokio::runtime::Builder::new_multi_thread().worker_threads(2).enable_all().build().unwrap();
+    rt.block_on(async move {
+        let (ext, n, plen, code) = (f[0] == 1, f[1] as usize, f[2] as usize, f[3] as u8);
+        let Ok(relay) = tokio::net::UdpSocket::bind("127.0.0.1:0").await else { return vec![vec![996]] };
+        let relay_port = relay.local_addr().unwrap().port();
+        let seen: Arc<Mutex<Vec<(Vec<u8>, Vec<u8>)>>> = Arc::new(Mutex::new(vec![]));
+        {
+            let seen = seen.clone();
+            tokio::spawn(async move {
+                let mut buf = vec![0u8; 70000];
+                loop {
+                    if let Ok((k, from)) = relay.recv_from(&mut buf).await {
+                        let d = buf[..k].to_vec();
+                        // RSV RSV FRAG ATYP ADDR PORT
+                        let hl = match d.get(3) {
+                            Some(1) => 10,
+                            Some(4) => 22,
+                            Some(3) => 7 + *d.get(4).unwrap_or(&0) as usize,
+                            _ => d.len(),
+                        }
+                        .min(d.len());
+                        seen.lock().unwrap().push((d[..hl].to_vec(), d[hl..].to_vec()));
+                        // the peer answers with the same payload reversed; the relay wraps it as coming from that peer
+                        let mut back = d[..hl].to_vec();
+                        back.extend(d[hl..].iter().rev());
+                        let _ = relay.send_to(&back, from).await;
+                    }
+                }
+            });
+        }
+        let l = TcpListener::bind("127.0.0.1:0").await.unwrap();
+        let socks_addr = l.local_addr().unwrap();
+        let controls: Arc<Mutex<Vec<Vec<u8>>>> = Arc::new(Mutex::new(vec![]));
+        {
+            let controls = controls.clone();
+            tokio::spawn(async move {
+                loop {
+                    let Ok((mut s, _)) = l.accept().await else { return };
+                    let controls = controls.clone();
+                    tokio::spawn(async move {
+                        let idx = {
+                            let mut c = controls.lock().unwrap();
+                            c.push(vec![]);
+                            c.len() - 1
+                        };
+                        let mut buf = [0u8; 4096];
+                        let mut got: Vec<u8> = vec![];
+                        let mut stage = 0;
+                        let mut method = 0u8;
+                        loop {
+                            // greeting -> method; authentication -> status; request -> reply; then hold the connection
+                            let progressed = match stage {
+                                0 if got.len() >= 2 && got.len() >= 2 + got[1] as usize => {
+                                    let offered = got[2..2 + got[1] as usize].to_vec();
+                                    method = if offered.contains(&0x80) { 0x80 } else if offered.contains(&2) { 2 } else { 0 };
+                                    controls.lock().unwrap()[idx].extend(got.drain(..));
+                                    let _ = s.write_all(&[5, method]).await;
+                                    stage = if method == 0 { 2 } else { 1 };
+                                    true
+                                }
+                                1 => {
+                                    let complete = if method == 2 {
+                                        got.len() >= 2 && got.len() >= 3 + got[1] as usize && got.len() >= 3 + got[1] as usize + got[2 + got[1] as usize] as usize
+                                    } else {
+                                        let mut i = 1;
+                                        let mut done = false;
+                                        while i + 3 <= got.len() {
+                                            let t = got[i];
+                                            let ln = ((got[i + 1] as usize) << 8) | got[i + 2] as usize;
+                                            i += 3 + ln;
+                                            if t == 0 {
+                                                done = i <= got.len();
+                                                break;
+                                            }
+                                        }
+                                        done
+                                    };
+                                    if complete {
+                                        controls.lock().unwrap()[idx].extend(got.drain(..));
+                                        let _ = s.write_all(&[1, 0]).await;
+                                        stage = 2;
+                                    }
+                                    complete
+                                }
+                                2 if got.len() >= 5
+                                    && match got[3] {
+                                        1 => got.len() >= 10,
+                                        4 => got.len() >= 22,
+                                        3 => got.len() >= 7 + got[4] as usize,
+                                        _ => true,
+                                    } =>
+                                {
+                                    controls.lock().unwrap()[idx].extend(got.drain(..));
+                                    let _ = s.write_all(&[5, code, 0, 1, 127, 0, 0, 1, (relay_port >> 8) as u8, relay_port as u8]).await;
+                                    stage = 3;
+                                    true
+                                }
+                                _ => false,
+                            };
+                            if progressed {
+                                continue;
+                            }
+                            match s.read(&mut buf).await {
+                                Ok(k) if k > 0 => got.extend_from_slice(&buf[..k]),
+                                _ => return,
+                            }
+                        }
+                    });
+                }
+            });
+        }
+        let make = move |addr: std::net::SocketAddr| {
+            Settings::builder()
+                .listen_address(addr)
+                .unwrap()
+                .listen_protocols(ListenProtocolSettings {
+                    http1: Some(Http1Settings::builder().build()),
+                    http2: Some(Http2Settings::builder().build()),
+                    quic: None,
+                })
+                .forwarder_settings(ForwardProtocolSettings::Socks5(
+                    Socks5ForwarderSettings::builder().server_address(socks_addr).unwrap().extended_auth(ext).build().unwrap(),
+                ))
+                .build()
+                .unwrap()
+        };
+        let auth: Option<Arc<dyn Authenticator>> = Some(Arc::new(RegistryBasedAuthenticator::new(&crate::engines::c01::clients())));
+        let Some(ep) = crate::front::start(make, crate::ctxutil::basic_hosts, auth).await else {
+            return vec![vec![996]];
+        };
+        let Some(mut s) = crate::front::tls_connect(ep.addr, "localhost", &[b"http/1.1"]).await else { return vec![vec![996]] };
+        let _ = s
+            .write_all(b"CONNECT _udp2 HTTP/1.1\r\nHost: x\r\nUser-Agent: verif-agent\r\nProxy-Authorization: Basic dTE6cDE=\r\n\r\n")
+            .await;
+        let mut acc = vec![];
+        let mut buf = [0u8; 8192];
+        while !acc.windows(4).any(|w| w == b"\r\n\r\n") {
+            match tokio::time::timeout(Duration::from_secs(5), s.read(&mut buf)).await {
+                Ok(Ok(k)) if k > 0 => acc.extend_from_slice(&buf[..k]),
+                _ => break,
+            }
+        }
+        let status: u128 = String::from_utf8_lossy(&acc).split(' ').nth(1).and_then(|x| x.parse().ok()).unwrap_or(0);
+        let mut good_payload = 0u128;
+        let mut good_label = 0u128;
+        if status == 200 {
+            let p = acc.windows(4).position(|w| w == b"\r\n\r\n").unwrap() + 4;
+            let mut inbox = acc[p..].to_vec();
+            let src: [u8; 4] = [10, 8, 0, 2];
+            let dst: [u8; 4] = [203, 0, 113, 7];
+            for i in 0..n {
+                let payload: Vec<u8> = (0..plen).map(|k| (k * 5 + i * 11 + 1) as u8).collect();
+                let mut body = vec![0u8; 12];
+                body.extend_from_slice(&src);
+                body.extend_from_slice(&(4000u16 + i as u16).to_be_bytes());
+                body.extend_from_slice(&[0u8; 12]);
+                body.extend_from_slice(&dst);
+                body.extend_from_slice(&5353u16.to_be_bytes());
+                body.push(0);
+                body.extend_from_slice(&payload);
+                let mut pkt = (body.len() as u32).to_be_bytes().to_vec();
+                pkt.extend_from_slice(&body);
+                let _ = s.write_all(&pkt).await;
+                // the reply: length, source, destination, payload
+                let deadline = tokio::time::Instant::now() + Duration::from_secs(3);
+                loop {
+                    if inbox.len() >= 4 {
+                        let ln = u32::from_be_bytes([inbox[0], inbox[1], inbox[2], inbox[3]]) as usize;
+                        if inbox.len() >= 4 + ln {
+                            let d: Vec<u8> = inbox.drain(..4 + ln).collect();
+                            if ln >= 36 {
+                                let want: Vec<u8> = payload.iter().rev().cloned().collect();
+                                good_payload += (d[40..] == want[..]) as u128;
+                                let label_ok = d[4..16] == [0u8; 12] && d[16..20] == dst && d[20..22] == 5353u16.to_be_bytes() && d[22..34] == [0u8; 12] && d[34..38] == src
+                                    && d[38..40] == (4000u16 + i as u16).to_be_bytes();
+                                good_label += label_ok as u128;
+                            }
+                            break;
+                        }
+                    }
+                    match tokio::time::timeout_at(deadline, s.read(&mut buf)).await {
+                        Ok(Ok(k)) if k > 0 => inbox.extend_from_slice(&buf[..k]),
+                        _ => break,
+                    }
+                }
+            }
+        }
+        drop(s);
+        tokio::time::sleep(Duration::from_millis(50)).await;
+        let ctl = controls.lock().unwrap().clone();
+        let seen = seen.lock().unwrap().clone();
+        // RFC 1928 section 7: RSV RSV FRAG ATYP DST.ADDR DST.PORT in front of the payload
+        let want_header = vec![0u8, 0, 0, 1, 203, 0, 113, 7, (5353u16 >> 8) as u8, 5353u16 as u8];
+        let headers_ok = seen.iter().all(|(h, _)| *h == want_header) as u128;
+        let mut payloads_ok = 0u128;
+        for (i, (_, p)) in seen.iter().enumerate() {
+            let want: Vec<u8> = (0..plen).map(|k| (k * 5 + i * 11 + 1) as u8).collect();
+            payloads_ok += (*p == want) as u128;
+        }
+        let mut out = vec![vec![status, good_payload, good_label, ctl.len() as u128, seen.len() as u128, headers_ok, payloads_ok]];
+        out.push(tok(ctl.first().map(|v| v.as_slice()).unwrap_or(&[])));
+        out
+    })
+}
